@@ -689,6 +689,87 @@ def set_algebra_against_model(ctx, g):
                             {"collection": fname, "members": self_ids, "operand": o_ids, "op": names[k], "stream": "C16 non-mutating set interface"})
 
 
+def iterators_follow_the_collection(ctx, g):
+    """A live iterator and edits in between, against the built-in's: a list iterator follows the list (an element appended after the
+    iterator was taken is still yielded, a removal makes it skip, never an exception), a set or dict iterator raises RuntimeError on
+    the next step after the size changed.  ir.modules with 0..4 modules x k elements consumed before the edit x every kind of edit
+    (append, insert at 0, remove the element just yielded / the next one, pop, clear, the module's own `ir = None`, reverse)."""
+    def play(n, k, edit, impl):
+        ir = g.IR()
+        ms = [g.Module(name="m%d" % i, ir=ir) for i in range(n)]
+        extra = g.Module(name="x")
+        allm = ms + [extra]
+        l = list(range(n))
+        coll = ir.modules if impl else l
+        conv = (lambda m: allm.index(m)) if impl else (lambda v: v)
+        out = []
+        try:
+            it = iter(coll)
+            for _ in range(k):
+                out.append(conv(next(it)))
+            cur = out[-1] if out else None
+            if edit == "append":
+                coll.append(extra if impl else n)
+            elif edit == "insert0":
+                coll.insert(0, extra if impl else n)
+            elif edit == "remove-current" and cur is not None:
+                coll.remove(allm[cur] if impl else cur)
+            elif edit == "remove-last" and len(coll):
+                coll.remove(coll[-1])
+            elif edit == "pop" and len(coll):
+                coll.pop()
+            elif edit == "clear":
+                coll.clear()
+            elif edit == "detach-current" and cur is not None:
+                if impl:
+                    allm[cur].ir = None
+                else:
+                    l.remove(cur)
+            elif edit == "reverse":
+                coll.reverse()
+            for v in it:
+                out.append(conv(v))
+            return ("ok", out)
+        except StopIteration:
+            return ("ok", out + ["stop"])
+        except Exception as e:  # noqa: BLE001
+            return ("err", exc_name(g, e), out)
+    bad = 0
+    for n in range(0, 5):
+        for k in range(0, n + 1):
+            for edit in ("append", "insert0", "remove-current", "remove-last", "pop", "clear", "detach-current", "reverse", "none"):
+                ri, rb = play(n, k, edit, True), play(n, k, edit, False)
+                ctx.count("live_iterator_cases")
+                if ri != rb and bad < 4:
+                    bad += 1
+                    ctx.add("oracle", "not-like-builtin:iter", "iter(ir.modules) over %d modules, %d consumed, then %s, then the rest: %s; the built-in list: %s" % (n, k, edit, ri, rb),
+                            {"n": n, "consumed": k, "edit": edit})
+    # node sets and the expression mapping: the built-ins refuse to go on after the size changed
+    for fname in ("sections", "symbols", "proxies"):
+        mk = {"sections": lambda i: g.Section(name="s%d" % i), "symbols": lambda i: g.Symbol("y%d" % i), "proxies": lambda i: g.ProxyBlock()}[fname]
+        for edit in ("add", "discard", "none"):
+            m = g.Module(name="m")
+            coll = getattr(m, fname)
+            for i in range(3):
+                coll.add(mk(i))
+            it = iter(coll)
+            first = next(it)
+            if edit == "add":
+                coll.add(mk(9))
+            elif edit == "discard":
+                coll.discard(first)
+            try:
+                rest = len(list(it))
+                got = ("ok", rest)
+            except Exception as e:  # noqa: BLE001
+                got = ("err", exc_name(g, e))
+            want = ("ok", 2) if edit == "none" else ("err", "RuntimeError")
+            ctx.count("live_iterator_cases")
+            if got != want:
+                ctx.add("oracle", "not-like-builtin:iter", "an iterator over %s, one element consumed, then %s, then the rest: %s; the built-in set: %s" % (fname, edit, got, want), {"collection": fname, "edit": edit})
+    ctx.case("live-iterators", True)
+
+
 def exhaustive_small_list(ctx, g):
     """Every index / bound / slice argument in -4..4 (and None) on a three-module list, each mutating call on a fresh IR: the index
     arithmetic of ir.modules against the built-in list, deterministically on every run.  After a mutating call the ownership of
@@ -914,6 +995,7 @@ def run(ctx):
     exhaustive_small_list(ctx, g)
     readonly_against_model(ctx, g, ctx.rng)
     set_algebra_against_model(ctx, g)
+    iterators_follow_the_collection(ctx, g)
     exhaustive_small_sets(ctx, g)
     worldgen.compare(ctx, hists, "wrappers", "C16 collection correspondence")
     ctx.cov["histories"] = nh
